@@ -129,6 +129,10 @@ def run(ctx, chk):
              "path (the release routine must find exactly the blocks the item owns)")
     from props.c11 import check_makers_define_item
     check_makers_define_item(chk, "C04.maker-init", prog, eff)
+    chk.rule("C04.getters", "each field accessor returns, on every path, the value of the field it stands for (resolved through the struct "
+             "types): no guard, clamp or second opinion between the stored value and the caller (the count a client reads is the count the rules maintain)")
+    import rules as _rg
+    _rg.check_field_getters(chk, "C04.getters", prog, eff, names=('cbor_refcount',))
     chk.exhaustive = True
 
 
@@ -166,7 +170,9 @@ def check_release(chk, prog, eff, cache, ctors, off, R="C04.release", RX="C04.re
         if t not in kinds:
             interior.add(t)
     must_free = {t for t in T.values() if t not in interior and kinds.get(t, set()) != {"null"}}
-    ps = cache.get("cbor_decref", inline_static=True)    # arms moved into static helpers are followed
+    # arms moved into static helpers are followed; accessors are seen through (a block freed through the pointer that
+    # cbor_map_handle(item) returned is item->data)
+    ps = cache.get("cbor_decref", inline=O.static_callees(prog, eff, "cbor_decref") | (rules.pure_getters(prog, eff) - {"cbor_decref"}))
     chk.floor(R, "paths of cbor_decref", len(ps), 15)
     seen_types = set()
     nz = 0
@@ -583,6 +589,9 @@ def _bound_ok(iters, count_getters, ITEM, off):
         if b[0] == "call" and b[1] in count_getters:
             continue
         if b[0] == "ld" and b[1] == ITEM and b[2] == off["metadata"] + 8:
+            continue
+        # chunk_count read through the data block (the accessor, seen through): offset 0 of *(item->data)
+        if b[0] == "ld" and b[2] == 0 and isinstance(b[1], tuple) and b[1][0] == "ld" and b[1][1] == ITEM and b[1][2] == off["data"]:
             continue
         return False
     return bool(iters)
